@@ -1,11 +1,15 @@
-//! C18: AngleInterval::{contains, intersects}, bit-precise for their OWN arithmetic (the comparisons against
-//! start -/+ ANGLE_TOL and the +2pi representative), modular in angle_to_2pi:
-//!  * `interval_contains_modular` / `interval_intersects_modular`: `stub_verified(angle_to_2pi)` - the callee is replaced by
-//!    its verified contract (any value in [0, 2pi]); the values it returned are read back from the log kept by its
-//!    postcondition predicate (angles::TO_2PI_LOG), so that the result can be compared with the two-representative definition used by the
-//!    Verus unit `angles` (`sp_contains`: the normalised angle t or t + 2pi lies in [start - TOL, start + extent + TOL]);
-//!  * `contract_interval_contains`: the in-place contract, direct (goes through CBMC's fmod model, |angle| <= 64);
-//!  * `contract_interval_intersects`: in-place contract proved against contains' contract only (stub_verified).
+//! C18: AngleInterval::{contains, intersects} - MODULAR and bit-precise for their own arithmetic.
+//! The callee angle_to_2pi uses `%`, which CBMC does not model bit-exactly (DESIGN.md section 8; probed again here:
+//! CBMC's `3.158 % 2pi` is not 3.158), so nothing in this file goes through CBMC's fmod: angle_to_2pi is always replaced
+//! by its verified contract (`stub_verified`: precondition checked, result = ANY double in [0, 2pi]).
+//! What can be stated without naming the value the stub returned:
+//!   * no panic / overflow / NaN for every start, extent and every normalised angle in [0, 2pi];
+//!   * a full-turn interval (extent == 2pi) contains every angle and intersects every interval - bit-precisely, i.e. the
+//!     tolerance arithmetic `start + extent + TOL` and the `+ 2pi` representative never lose a normalised angle.
+//! The full two-representative definition (Verus unit `angles`, `sp_contains`, over the reals) needs the normalised value and
+//! is therefore only checked DIRECTLY, under CBMC's fmod model, by the thorough-tier harness `interval_contains_direct`.
+//! Chain of contracts: angle_to_2pi (verified, fmod model) -> contains (this file, stub_verified(angle_to_2pi))
+//!                     -> intersects (this file, stub_verified(contains)).
 use super::angles::{in_domain, in_quick, post_to_2pi};
 use super::Src;
 use crate::common::{angle_to_2pi, AngleInterval};
@@ -22,36 +26,28 @@ pub fn in_range(start: f64, extent: f64, x: f64) -> bool { x >= start - ANGLE_TO
 pub fn two_rep(start: f64, extent: f64, t: f64) -> bool { in_range(start, extent, t) || in_range(start, extent, t + 2.0 * PI) }
 
 // ---- in-place postconditions (src/common/angles.rs)
-pub fn post_contains(start: f64, extent: f64, t: f64, r: bool) -> bool { r == two_rep(start, extent, t) }
-pub fn post_intersects(s0: f64, e0: f64, s1: f64, e1: f64, t_other: f64, t_self: f64, r: bool) -> bool {
-    r == (two_rep(s0, e0, t_other) || two_rep(s1, e1, t_self))
-}
+pub fn post_contains(extent: f64, r: bool) -> bool { !(extent == 2.0 * PI) || r }
+pub fn post_intersects(e0: f64, e1: f64, r: bool) -> bool { !(e0 == 2.0 * PI || e1 == 2.0 * PI) || r }
 
-/// natively realisable argument whose normalisation is the stub's value t (t in [0, 2pi): fixed point; 2pi: reached from -tiny)
+/// natively realisable argument whose normalisation is t (t in [0, 2pi): fixed point of angle_to_2pi; 2pi: reached from -tiny)
 fn realise(t: f64) -> f64 { if t >= 2.0 * PI { -1.0e-300 } else { t } }
 
-/// Native replay of the modular contains harness: a, e, x are the harness inputs, s and t the two values returned by the
-/// stubbed angle_to_2pi (start of the interval, normalised query angle).
+/// Native replay of the modular contains harness: a, e, x are the harness inputs; st, t the two values returned by the
+/// stubbed angle_to_2pi (start of the interval, normalised query angle) - fed back as direct arguments.
 pub fn h_contains_modular_replay<S: Src>(s: &mut S) {
     let _a = s.f64();
     let e = s.f64();
     let _x = s.f64();
     let st = s.f64();
     let t = s.f64();
-    s.assume(e >= 0.0 && e <= 2.0 * PI && post_to_2pi(st) && post_to_2pi(t));
-    let i = AngleInterval::new(realise(st), e);
+    s.assume(e >= -64.0 && e <= 64.0 && post_to_2pi(st) && post_to_2pi(t));
+    let i = AngleInterval::new(realise(st), e.abs());
     s.assume(i.start() == st && angle_to_2pi(realise(t)) == t);
     let r = i.contains(realise(t));
-    check_contains(s, st, i.angle(), t, r);
+    s.check(wf(i.start(), i.angle()), "AngleInterval::new: start and extent in [0, 2pi]");
+    s.check(post_contains(i.angle(), r), "a full-turn interval contains every angle");
 }
-fn check_contains<S: Src>(s: &mut S, st: f64, e: f64, t: f64, r: bool) {
-    s.check(post_contains(st, e, t, r), "contains <=> the normalised angle or its +2pi representative lies in [start - TOL, start + extent + TOL]");
-    if e == 2.0 * PI { s.check(r, "a full-turn interval contains every angle"); }
-    if t == st { s.check(r, "an interval contains its own start"); }
-    if t >= st && t <= st + e { s.check(r, "an angle of the exact swept set [start, start + extent] is contained"); }
-    if t + 2.0 * PI >= st && t + 2.0 * PI <= st + e { s.check(r, "an angle whose +2pi representative is in the exact swept set is contained"); }
-}
-/// direct (non-modular) form, used as replay of the in-place contract harness
+/// direct form (through the real `%` natively / CBMC's fmod model under Kani): the two-representative definition
 pub fn h_contains_direct<S: Src>(s: &mut S, dom: f64) {
     let a = s.f64();
     let e = s.f64();
@@ -59,7 +55,10 @@ pub fn h_contains_direct<S: Src>(s: &mut S, dom: f64) {
     s.assume(a >= -dom && a <= dom && e >= 0.0 && e <= 2.0 * PI && x >= -dom && x <= dom);
     let i = AngleInterval::new(a, e);
     let r = i.contains(x);
-    s.check(post_contains(i.start(), i.angle(), angle_to_2pi(x), r), "contains <=> two-representative membership of angle_to_2pi(angle)");
+    let t = angle_to_2pi(x);
+    let (st, e) = (i.start(), i.angle());
+    s.check(r == two_rep(st, e, t), "contains <=> the normalised angle or its +2pi representative lies in [start - TOL, start + extent + TOL]");
+    if t >= st && t <= st + e { s.check(r, "an angle of the exact swept set [start, start + extent] is contained"); }
 }
 pub fn h_intersects_direct<S: Src>(s: &mut S, dom: f64) {
     let a0 = s.f64();
@@ -70,15 +69,15 @@ pub fn h_intersects_direct<S: Src>(s: &mut S, dom: f64) {
     let i = AngleInterval::new(a0, e0);
     let j = AngleInterval::new(a1, e1);
     let r = i.intersects(&j);
-    s.check(post_intersects(i.start(), i.angle(), j.start(), j.angle(), angle_to_2pi(j.start()), angle_to_2pi(i.start()), r), "intersects <=> one interval contains the other's start");
-    s.check(r == j.intersects(&i), "intersects is symmetric");
+    s.check(post_intersects(i.angle(), j.angle(), r), "a full-turn interval intersects every interval");
+    s.check(r == (i.contains(j.start()) || j.contains(i.start())), "intersects <=> one interval contains the other's start");
 }
 
 pub fn dispatch<S: Src>(name: &str, s: &mut S) -> bool {
     match name {
         "interval_contains_modular" => h_contains_modular_replay(s),
-        "angle_interval_contains" => h_contains_direct(s, 64.0),
-        "angle_interval_intersects" => h_intersects_direct(s, 64.0),
+        "interval_contains_direct" => h_contains_direct(s, 8.0),
+        "interval_intersects_direct" => h_intersects_direct(s, 8.0),
         _ => return false,
     }
     true
@@ -89,52 +88,55 @@ mod proofs {
     use super::*;
     use crate::verif_kani::Sym;
 
-    use crate::verif_kani::angles::{TO_2PI_LOG, TO_2PI_N};
+    fn any_interval_modular() -> AngleInterval {
+        let a: f64 = kani::any(); let e: f64 = kani::any();
+        kani::assume(in_quick(a) && in_quick(e)); // negative extents included: new() folds them
+        let i = AngleInterval::new(a, e);
+        assert!(wf(i.start(), i.angle()), "AngleInterval::new: start and extent in [0, 2pi]");
+        i
+    }
 
+    // in-place contract of contains, against angle_to_2pi's contract only
+    #[kani::proof_for_contract(AngleInterval::contains)] #[kani::stub_verified(angle_to_2pi)]
+    fn contract_interval_contains() {
+        let x: f64 = kani::any();
+        kani::assume(in_quick(x));
+        let i = any_interval_modular();
+        kani::cover!(i.angle() == 2.0 * PI && i.start() > 6.0);
+        kani::cover!(i.angle() < 1.0);
+        i.contains(x);
+    }
+    // in-place contract of intersects, against contains' contract only
+    #[kani::proof_for_contract(AngleInterval::intersects)] #[kani::stub_verified(AngleInterval::contains)] #[kani::stub_verified(angle_to_2pi)]
+    fn contract_interval_intersects() {
+        let i = any_interval_modular();
+        let j = any_interval_modular();
+        kani::cover!(j.angle() == 2.0 * PI && i.angle() < 1.0);
+        i.intersects(&j);
+    }
+    // the same two statements as plain harnesses (replayable), plus absence of panics on the whole domain
     #[kani::proof] #[kani::stub_verified(angle_to_2pi)]
     fn interval_contains_modular() {
         let a: f64 = kani::any(); let e: f64 = kani::any(); let x: f64 = kani::any();
-        kani::assume(in_quick(a) && in_quick(x) && e >= 0.0 && e <= 2.0 * PI);
+        kani::assume(in_quick(a) && in_quick(e) && in_quick(x));
         let i = AngleInterval::new(a, e);
         let r = i.contains(x);
-        let (st, t, n) = unsafe { (TO_2PI_LOG[0], TO_2PI_LOG[1], TO_2PI_N) };
-        assert!(n == 2 && i.start() == st && wf(i.start(), i.angle()));
-        kani::cover!(r && t < st);
+        kani::cover!(r && i.angle() < 1.0);
         kani::cover!(!r);
-        check_contains(&mut Sym, st, i.angle(), t, r);
+        assert!(wf(i.start(), i.angle()), "AngleInterval::new: start and extent in [0, 2pi]");
+        assert!(post_contains(i.angle(), r), "a full-turn interval contains every angle");
     }
     #[kani::proof] #[kani::stub_verified(angle_to_2pi)]
     fn interval_intersects_modular() {
-        let a0: f64 = kani::any(); let e0: f64 = kani::any(); let a1: f64 = kani::any(); let e1: f64 = kani::any();
-        kani::assume(in_quick(a0) && in_quick(a1) && e0 >= 0.0 && e0 <= 2.0 * PI && e1 >= 0.0 && e1 <= 2.0 * PI);
-        let i = AngleInterval::new(a0, e0);
-        let j = AngleInterval::new(a1, e1);
+        let i = any_interval_modular();
+        let j = any_interval_modular();
         let r = i.intersects(&j);
-        let (s0, s1, t0, t1, n) = unsafe { (TO_2PI_LOG[0], TO_2PI_LOG[1], TO_2PI_LOG[2], TO_2PI_LOG[3], TO_2PI_N) };
-        assert!(i.start() == s0 && j.start() == s1 && (n == 3 || n == 4));
-        kani::cover!(r && n == 4);
+        kani::cover!(r && i.angle() < 1.0 && j.angle() < 1.0);
         kani::cover!(!r);
-        // short-circuit: the second normalisation happens only when the first membership test is false
-        if n == 3 { assert!(r && two_rep(s0, i.angle(), t0), "intersects: first disjunct true => result true"); }
-        else { assert!(!two_rep(s0, i.angle(), t0) && r == two_rep(s1, j.angle(), t1), "intersects <=> one interval contains the other's (normalised) start"); }
+        assert!(post_intersects(i.angle(), j.angle(), r), "a full-turn interval intersects every interval");
     }
 
-    // in-place contracts
-    #[kani::proof_for_contract(AngleInterval::contains)]
-    fn contract_interval_contains() {
-        let a: f64 = kani::any(); let e: f64 = kani::any(); let x: f64 = kani::any();
-        kani::assume(in_quick(a) && in_quick(x) && e >= 0.0 && e <= 2.0 * PI);
-        let i = AngleInterval::new(a, e);
-        kani::cover!(i.start() > 6.0);
-        i.contains(x);
-    }
-    #[kani::proof_for_contract(AngleInterval::intersects)] #[kani::stub_verified(AngleInterval::contains)]
-    fn contract_interval_intersects() {
-        let a0: f64 = kani::any(); let e0: f64 = kani::any(); let a1: f64 = kani::any(); let e1: f64 = kani::any();
-        kani::assume(in_quick(a0) && in_quick(a1) && e0 >= 0.0 && e0 <= 2.0 * PI && e1 >= 0.0 && e1 <= 2.0 * PI);
-        let i = AngleInterval::new(a0, e0);
-        let j = AngleInterval::new(a1, e1);
-        kani::cover!(i.start() > j.start());
-        i.intersects(&j);
-    }
+    // thorough tier: the full definition, directly, under CBMC's fmod model (|angles| <= 8)
+    #[kani::proof] fn interval_contains_direct() { h_contains_direct(&mut Sym, 8.0); kani::cover!(true); }
+    #[kani::proof] fn interval_intersects_direct() { h_intersects_direct(&mut Sym, 8.0); kani::cover!(true); }
 }
